@@ -39,6 +39,7 @@ BUDGET_S = {"quick": 3000, "thorough": 5400}
 
 QUICK_SESSIONS = {
     "default": 40,
+    "C23": 64,  # every operation x every staging: the widest product of all profiles
     "C17": 1600,
     "C19": 640,
     "C31": 320,
